@@ -26,6 +26,7 @@ struct ScenarioLog {
     renders_ok_after_fault: u32,
     renders_ok_after_lift: u32,
     renders_err_after_lift: u32,
+    quiescent_checks: u32,
 }
 
 fn scenario(bytes: Arc<Vec<u8>>, reference: Arc<Vec<Vec<Vec<u32>>>>, k: usize, script_seed: u64, mon: Monitor, log: Arc<Mutex<ScenarioLog>>) {
@@ -38,6 +39,16 @@ fn scenario(bytes: Arc<Vec<u8>>, reference: Arc<Vec<Vec<Vec<u32>>>>, k: usize, s
         if l.violation.is_none() {
             l.violation = Some((sig.to_string(), d));
         }
+    };
+    // Quiescent-point invariant (hook H5): the pool is JxlThreadPool::none(), so when a public call has
+    // returned nobody is rendering; a handle still in state Rendering can never be completed and the
+    // next caller that needs it waits forever.
+    let quiescent = |image: &JxlImage, after: &str| {
+        let stuck: Vec<usize> = image.verif_render_states().into_iter().filter(|(_, t)| *t == "Rendering").map(|(i, _)| i).collect();
+        if !stuck.is_empty() {
+            fail("wedge:handle-left-rendering", format!("after {after}: frame handles {stuck:?} are in state Rendering although no call is in progress"));
+        }
+        log.lock().unwrap().quiescent_checks += 1;
     };
     let image = JxlImage::builder().pool(JxlThreadPool::none()).alloc_tracker(tracker.clone()).read(std::io::Cursor::new(&bytes[..]));
     mon.api_return();
@@ -65,6 +76,7 @@ fn scenario(bytes: Arc<Vec<u8>>, reference: Arc<Vec<Vec<Vec<u32>>>>, k: usize, s
     for kf in 0..nk {
         let r = planes_bits(&image, kf);
         mon.api_return();
+        quiescent(&image, "A render");
         match &r {
             Ok(b) => {
                 note(format!("A render({kf}) -> Ok"));
@@ -85,6 +97,7 @@ fn scenario(bytes: Arc<Vec<u8>>, reference: Arc<Vec<Vec<Vec<u32>>>>, k: usize, s
                 let kf = rng.below(nk.max(1) as u64) as usize;
                 let r = planes_bits(&image, kf);
                 mon.api_return();
+                quiescent(&image, "B render");
                 match &r {
                     Ok(b) => {
                         note(format!("B render({kf}) -> Ok"));
@@ -111,6 +124,7 @@ fn scenario(bytes: Arc<Vec<u8>>, reference: Arc<Vec<Vec<Vec<u32>>>>, k: usize, s
             _ => {
                 let r = image.render_loading_frame().map(|_| ());
                 mon.api_return();
+                quiescent(&image, "B render_loading_frame");
                 note(format!("B render_loading_frame -> {}", if r.is_ok() { "Ok" } else { "Err" }));
             }
         }
@@ -130,6 +144,7 @@ fn scenario(bytes: Arc<Vec<u8>>, reference: Arc<Vec<Vec<Vec<u32>>>>, k: usize, s
         for kf in 0..nk {
             let r = planes_bits(&image, kf);
             mon.api_return();
+            quiescent(&image, "C render");
             match &r {
                 Ok(b) => {
                     note(format!("C{round} render({kf}) -> Ok"));
@@ -296,6 +311,7 @@ pub fn run(args: &Args) -> i32 {
             case.obs("renders_failed_under_fault", l.renders_failed as u64);
             case.obs("renders_ok_after_lift", l.renders_ok_after_lift as u64);
             case.obs("renders_err_after_lift", l.renders_err_after_lift as u64);
+            case.obs("quiescent_state_checks", l.quiescent_checks as u64);
             let (events, waits, _, _, _) = mon.snapshot();
             events_total += events;
             waits_total += waits;
